@@ -109,6 +109,13 @@ theorem unesc_eq (e : Byte) : unesc e =
 theorem and1023_mod (x : Nat) : (x &&& 1023) % 4294967296 = x &&& 1023 :=
   Nat.mod_eq_of_lt (Nat.lt_of_le_of_lt Nat.and_le_right (by decide))
 
+/-- a unit in D800..DBFF (`w & 0xFC00 == 0xD800`) passes the wider test `w & 0xF800 == 0xD800` too: the code may
+    test either one or both -/
+theorem sur_mask (w : Nat) (h : w &&& 64512 = 55296) : w &&& 63488 = 55296 := by
+  have k : (64512 : Nat) &&& 63488 = 63488 := by decide
+  have e : w &&& 63488 = (w &&& 64512) &&& 63488 := by rw [Nat.and_assoc, k]
+  rw [e, h]; decide
+
 theorem gen_string : ∀ (f line : Nat) (acc r : List Byte), JsonCode.strL0 f line acc r = readStr f line acc r := by
   intro f
   induction f with
@@ -155,8 +162,8 @@ theorem gen_string : ∀ (f line : Nat) (acc r : List Byte), JsonCode.strL0 f li
               · by_cases h2 : isHexDigit a2 = true
                 · by_cases h3 : isHexDigit a3 = true
                   · simp only [hex4, Res.bind, List.drop, h0, h1, h2, h3, if_true, List.nil_append, List.cons_append]
-                    by_cases hs1 : scanHex [a0, a1, a2, a3] &&& 63488 = 55296
-                    · by_cases hs2 : scanHex [a0, a1, a2, a3] &&& 64512 = 55296
+                    by_cases hs2 : scanHex [a0, a1, a2, a3] &&& 64512 = 55296
+                    · have hs1 := sur_mask _ hs2
                       · simp only [hs1, hs2, and_self, if_true]
                         rcases r with _ | ⟨b1, _ | ⟨b2, _ | ⟨d0, _ | ⟨d1, _ | ⟨d2, _ | ⟨d3, r⟩⟩⟩⟩⟩⟩
                         · simp
@@ -178,8 +185,7 @@ theorem gen_string : ∀ (f line : Nat) (acc r : List Byte), JsonCode.strL0 f li
                               · simp [hex4, Res.bind, g1, g2, k0]
                             · simp [g1, g2]
                           · simp [g1]
-                      · simp [hs1, hs2]
-                    · simp [hs1]
+                    · simp [hs2]
                   · simp [hex4, Res.bind, h0, h1, h2, h3]
                 · simp [hex4, Res.bind, h0, h1, h2]
               · simp [hex4, Res.bind, h0, h1]
